@@ -39,6 +39,8 @@ val rev : 'a1 list -> 'a1 list
 
 val map : ('a1 -> 'a2) -> 'a1 list -> 'a2 list
 
+val fold_right : ('a2 -> 'a1 -> 'a1) -> 'a1 -> 'a2 list -> 'a1
+
 val existsb : ('a1 -> bool) -> 'a1 list -> bool
 
 val forallb : ('a1 -> bool) -> 'a1 list -> bool
@@ -380,6 +382,14 @@ val is_any_gte : coins -> coins -> bool
 val coins_is_zero : coins -> bool
 
 val coins_equal : coins -> coins -> bool option
+
+val insert_coin : coin -> coins -> coins
+
+val sort_coins : coins -> coins
+
+val has_dup : coins -> bool
+
+val new_coins : coins -> coins option
 
 type 'v amap = (bytes * 'v) list
 
